@@ -632,6 +632,14 @@ func (e *Engine) contentOf(st *state, v *Val) *Val {
 		}
 	}
 	switch v.Op {
+	case "conv":
+		// a change of type leaves the value – and what it holds – as it is
+		if v.Name == "changetype" && len(v.Args) == 1 {
+			if c := e.contentOf(st, v.Args[0]); c != v.Args[0] {
+				return c
+			}
+		}
+		return v
 	case "call":
 		// the result of a bytes/slices function applied to a view of the buffer: its content is the function applied to
 		// the view's content
